@@ -253,6 +253,12 @@ impl DtlsTransport {
         self.inner.state.lock().clone()
     }
 
+    /// Verification hook (C10): the handshake role this transport was created with.
+    #[cfg(rustrtc_verif)]
+    pub fn verif_is_client(&self) -> bool {
+        self.inner.is_client
+    }
+
     pub async fn new(
         conn: Arc<IceConn>,
         certificate: Certificate,
